@@ -16,6 +16,11 @@ list/tuple structure in traversal order, `v.skel` its list/tuple skeleton.
   returned structure (per pass), nothing else; every secret leaf is replaced by its plain value.
 * `C17_plain_return`: the returned structure contains no secret.
 * `C17_call`: the statements compose over a call, hence over sequences of calls (state in / out).
+* `C17_outputs_guarded`, `C17_outputs_any_guard`, `C17_call_any_guard`: a decorated call made INSIDE a
+  guarded region (`runtime.guard` set, e.g. under `guarded(cond)` or in an oblivious branch) publishes
+  exactly the same values in the same order as outside one; the guard only changes how each output is
+  tied (`0·0 = x − out + d`, `g·d = 0` with a private dummy `d = 0`).  Neither the number nor the order
+  of the public values depends on the value of the guard (`C17_inputs` has no guard hypothesis at all).
 -/
 namespace Pysnark
 
@@ -110,6 +115,66 @@ theorem C17_call {fn : Val → M Val} {args r : Val} {s s' : St} (h : snarkCall 
   obtain ⟨e, hk', hl⟩ := snarkOut_spec hg h3
   exact ⟨a, s1, ret, s2, h1, h2, h3, hp, hpr, hc, e, hk', hl, C17_plain_return hg h3⟩
 
+/-- **outputs inside a guarded region** (`runtime.guard` is some `g`, of value 0 or 1): the public values
+appended are exactly the same as outside a guarded region — the values of the `LinComb`, then `LinCombFxp`,
+then `LinCombBool` leaves, in traversal order —; per secret one private dummy of value 0 and the two
+constraints `0·0 = x − out + d`, `g·d = 0` are appended; the guard is still `g` afterwards; the returned
+structure is the same as outside a guarded region and contains no secret.  The value of `g` occurs nowhere
+in the conclusion. -/
+theorem C17_outputs_guarded {ret r : Val} {g : LinComb} {s s' : St} (hg : s.guard = some g)
+    (h : snarkOut ret s = .ok (r, s')) :
+    let secrets := ret.leaves.filterMap Val.lcOf? ++ ret.leaves.filterMap Val.fxpOf? ++
+      ret.leaves.filterMap Val.lcbOf?
+    s' = s.revealG g secrets ∧
+    s'.pub = s.pub ++ secrets.map (·.value) ∧ s'.priv = s.priv ++ List.replicate secrets.length 0 ∧
+    s'.cons = s.cons ++ revealConsG g s.pub.length s.priv.length secrets ∧
+    (revealConsG g s.pub.length s.priv.length secrets).length = 2 * secrets.length ∧
+    s'.guard = some g ∧
+    r.skel = ret.skel ∧ r.leaves = ret.leaves.map (reveal s.resolution) ∧ noSecret r := by
+  intro secrets
+  obtain ⟨e, hk, hl⟩ := snarkOut_spec_guarded hg h
+  subst e
+  refine ⟨rfl, rfl, rfl, rfl, revealConsG_length _ _ _ _, hg, hk, hl, ?_⟩
+  intro l hlm
+  rw [hl] at hlm
+  obtain ⟨v, hv, rfl⟩ := List.mem_map.mp hlm
+  exact (reveal_not_secret _ v (leaves_isLeaf ret v hv)).1
+
+/-- **the public outputs do not depend on the guard**: in ANY tracer state — no guard, a guard of value 1,
+a guard of value 0 — `snarkOut ret` appends exactly the values of the secret leaves of `ret` (pass by pass,
+in traversal order) to the public values and returns the same plain structure -/
+theorem C17_outputs_any_guard {ret r : Val} {s s' : St} (h : snarkOut ret s = .ok (r, s')) :
+    s'.pub = s.pub ++ (ret.leaves.filterMap Val.lcOf? ++ ret.leaves.filterMap Val.fxpOf? ++
+      ret.leaves.filterMap Val.lcbOf?).map (·.value) ∧
+    s'.guard = s.guard ∧
+    r.skel = ret.skel ∧ r.leaves = ret.leaves.map (reveal s.resolution) ∧ noSecret r := by
+  cases hs : s.guard with
+  | none =>
+    obtain ⟨e, hk, hl⟩ := snarkOut_spec hs h
+    subst e
+    exact ⟨rfl, hs, hk, hl, C17_plain_return hs h⟩
+  | some g =>
+    obtain ⟨-, hp, -, -, -, hg', hk, hl, hn⟩ := C17_outputs_guarded hs h
+    exact ⟨hp, hg', hk, hl, hn⟩
+
+/-- **a decorated call in any tracer state** (inside or outside a guarded region, whatever the body does to
+the guard): the publics it appends are the int arguments, the float arguments, [whatever the body makes
+public], then one output per secret result leaf; none of the counts or positions mentions the guard -/
+theorem C17_call_any_guard {fn : Val → M Val} {args r : Val} {s s' : St}
+    (h : snarkCall fn args s = .ok (r, s')) :
+    ∃ a s1 ret s2, snarkIn args s = .ok (a, s1) ∧ fn a s1 = .ok (ret, s2) ∧ snarkOut ret s2 = .ok (r, s') ∧
+      s1.pub = s.pub ++ intLeaves args ++ fltLeaves s.resolution args ∧ s1.priv = s.priv ∧ s1.cons = s.cons ∧
+      s1.guard = s.guard ∧
+      s'.pub = s2.pub ++ (ret.leaves.filterMap Val.lcOf? ++ ret.leaves.filterMap Val.fxpOf? ++
+        ret.leaves.filterMap Val.lcbOf?).map (·.value) ∧ s'.guard = s2.guard ∧
+      r.skel = ret.skel ∧ r.leaves = ret.leaves.map (reveal s2.resolution) ∧ noSecret r := by
+  unfold snarkCall at h
+  obtain ⟨a, s1, h1, hk⟩ := bind_ok.mp h
+  obtain ⟨ret, s2, h2, h3⟩ := bind_ok.mp hk
+  obtain ⟨e1, hp, hpr, hc, -, -⟩ := C17_inputs h1
+  obtain ⟨o1, o2, o3, o4, o5⟩ := C17_outputs_any_guard h3
+  exact ⟨a, s1, ret, s2, h1, h2, h3, hp, hpr, hc, by rw [e1], o1, o2, o3, o4, o5⟩
+
 /-! ## non-vacuity: `snark(lambda x, y: [x*x, (y, x)])(3, 1.5)` at resolution 8 -/
 def exBody : Val → M Val
   | .tuple [x, y] => do let xx ← mulV x x; pure (.list [xx, .tuple [y, x]])
@@ -119,6 +184,22 @@ def exBody : Val → M Val
 `y = 384` (LinCombFxp pass); returned `[9, (1.5, 3)]`; 1 product + 3 output constraints, all satisfied -/
 example : (match snarkCall exBody (.tuple [.int 3, .flt 3 1]) (St.init 97 8 8) with
     | .ok (r, s) => s.pub == [3, 384, 9, 3, 384] && s.priv == [9] && s.cons.length == 4 &&
+        r.same (.list [.int 9, .tuple [.flt 384 8, .int 3]]) &&
+        s.cons.all (fun c => (LC.eval s.assign c.1 * LC.eval s.assign c.2.1 - LC.eval s.assign c.2.2) % 97 == 0)
+    | _ => false) = true := by decide +kernel
+
+/-- the tracer state inside `guarded(PrivVal(gv))`: the guard is private wire 0 (value `gv`), errors are
+suppressed when it is 0, and `LinComb.ONE` is the guard -/
+def exGuardSt (gv : Int) : St :=
+  { St.init 97 8 8 with priv := [gv], guard := some ⟨gv, [(Wire.priv 0, 1)]⟩, ignoreErrors := gv == 0,
+                        one := ⟨gv, [(Wire.priv 0, 1)]⟩ }
+
+/-- non-vacuity of the guarded statements: the same call inside `guarded(PrivVal(1))` and inside
+`guarded(PrivVal(0))` publishes the same five values as outside a guarded region, adds one private dummy 0
+per output (3) after the product wire, 1 + 2·3 constraints, all satisfied by the recorded witness -/
+example : [0, 1].all (fun gv =>
+    match snarkCall exBody (.tuple [.int 3, .flt 3 1]) (exGuardSt gv) with
+    | .ok (r, s) => s.pub == [3, 384, 9, 3, 384] && s.priv == [gv, 9, 0, 0, 0] && s.cons.length == 7 &&
         r.same (.list [.int 9, .tuple [.flt 384 8, .int 3]]) &&
         s.cons.all (fun c => (LC.eval s.assign c.1 * LC.eval s.assign c.2.1 - LC.eval s.assign c.2.2) % 97 == 0)
     | _ => false) = true := by decide +kernel
